@@ -147,7 +147,7 @@ def span(ctx):
             a0 = f.s(d["args"][0])
             v = eng._lock_value(f, la, a0, f.pos_of(d))
             tgt = path(f, f.s(d["args"][1]))
-            if v is not None and v.st == HELD and v.mutex == "this.m_writeMutex" and tgt in ("*this",):
+            if v is not None and v.st == HELD and v.mutex == "this.m_writeMutex" and tgt in ("*this", "this"):
                 ok = True
         ctx.ob(rid, ok, f.where, "the still-owned writer lock is moved into the deleter bound to *this",
                "" if ok else "the deleter does not receive the owned lock on m_writeMutex", fn=f.label, inst=f.qname)
